@@ -3,6 +3,7 @@ package c13
 
 import (
 	"encoding/json"
+	"errors"
 	"fmt"
 	"math/big"
 	"strconv"
@@ -63,6 +64,14 @@ func judge(c Case, w *vkit.W) {
 		_, _ = size.DefaultFormatter([]byte("<b>"), s, size.FormatPretty|size.FormatHTML)
 		_, _ = s.MarshalJSON()
 		_, _ = s.MarshalText()
+		// other corners of the package are in use meanwhile: parsing, also of texts whose unit is nearly right
+		_, _ = size.New(5, "kib")
+		_, _ = size.New(7.0, "MB")
+		_, _ = size.DefaultParser("3 mb", 0)
+		_, _ = size.DefaultParser([]byte("1 KIB"), size.RuleDisableUnit)
+		_, _ = size.DefaultParser(`{"value":2,"unit":"Gib"}`, size.RuleEnableJSONObjectForm)
+		var tmp size.Size
+		_ = tmp.UnmarshalText([]byte("9 b"))
 	}
 	val, unit := s.Shorten()
 	k, known := binaryUnits[unit]
@@ -262,6 +271,29 @@ func TestCheck(t *testing.T) {
 					judge(Case{S: a}, w)
 					w.EvalRandom(vkit.HashU(v, a, 13), nontrivial(a))
 				}
+			}
+		})
+	})
+	// Phase A02: the package-level Formatter is replaced by one that succeeds with other text, then by one that fails, each is used
+	// once, and the default comes back: afterwards every rendering is again what the statement says.
+	r.Phase("A02: renderings right after custom package-level Formatter functions (one succeeding with other text, one failing) were installed, used and removed", func() {
+		r.Serial(func(w *vkit.W) {
+			for i := 0; i < len(strata); i += 29 {
+				v := size.Size(strata[i])
+				old := size.Formatter
+				size.Formatter = func(buf []byte, s size.Size, f size.Format) ([]byte, error) {
+					return append(buf, "custom"...), nil
+				}
+				_, _ = v.String(), v.PrettyString()
+				size.Formatter = func(buf []byte, s size.Size, f size.Format) ([]byte, error) {
+					return append(buf, "part"...), errors.New("formatter refused")
+				}
+				_ = v.String() // documented: falls back to the plain byte count
+				_, _ = v.MarshalText()
+				vkit.Panics(func() { _ = v.PrettyString() }) // documented: panics
+				size.Formatter = old
+				judge(Case{S: strata[i]}, w)
+				w.Eval(nontrivial(strata[i]))
 			}
 		})
 	})
